@@ -20,6 +20,7 @@ from __future__ import annotations
 import asyncio
 import collections
 import contextlib
+import os
 import selectors
 import weakref
 
@@ -200,8 +201,13 @@ class MemLoop(sysrun.OracleLoop):
                 k = self.eng.choose(len(opts), 'deliver') if (self.active and len(opts) > 1) else 0
                 kind, x = opts[k]
                 if kind == 'wire':
-                    self.deliveries.append(('msg', x.label))
-                    x.deliver_head()
+                    # several messages in flight in one direction may arrive in one segment (no loop iteration in between)
+                    m = 1
+                    if self.active and len(x.inflight) > 1:
+                        m = 1 + self.eng.choose(len(x.inflight), 'batch')
+                    self.deliveries.append(('msg', x.label) if m == 1 else ('msg', x.label, m))
+                    for _ in range(m):
+                        x.deliver_head()
                 elif kind == 'reply':
                     self._deliver(x)
                 elif kind == 'event':
@@ -399,27 +405,75 @@ SIM_CLASSES = {}     # port -> factory, filled by the harnesses ('1' -> SymSim b
 async def mem_open_connection(host=None, port=None, **kw):
     loop = asyncio.get_running_loop()
     assert isinstance(loop, MemLoop), 'in-memory connections need a MemLoop'
+    return _new_connection(loop, port)
+
+
+def _new_connection(loop, port, proc=None):
+    """a new pair of transports with a fresh simulator object at the far end; returns the mosaik end (reader, writer)"""
     port = str(port)
     n = len(loop.endpoints)
     r1, w1, t1 = make_end(loop, 'mosaik', f'mosaik->conn{n}')
     r2, w2, t2 = make_end(loop, 'sim', f'conn{n}->mosaik')
     t1.peer, t2.peer = t2, t1
     loop.wires.append(t2)       # only simulator -> mosaik is scheduled by the solver
-    factory = SIM_CLASSES.get(port, sysrun.SymSim)
-    sim = factory()
+    sim = SIM_CLASSES.get(port, sysrun.SymSim)()
+    if proc is not None:
+        sim.proc_env, sim.proc_cwd = proc
     ep = Endpoint(loop, sim, t1, t2, port)
     ep.instrument()
     loop.endpoints.append(ep)
-
     ep.task = loop.create_task(ep.serve(r2, w2), name=f'remote-sim:{port}:{len(loop.endpoints)}')
     loop.task_owner[ep.task] = ep
     return r1, w1
 
 
+class _MemServer:
+    """what asyncio.start_server returns, as far as start_proc uses it"""
+    class _Sock:
+        def getsockname(self):
+            return ('mem', 0)
+
+    def __init__(self, cb):
+        self.cb = cb
+        self.sockets = [self._Sock()]
+        self.closed = False
+
+    def close(self):
+        self.closed = True
+
+
+async def mem_start_server(client_connected_cb, host=None, port=None, **kw):
+    srv = _MemServer(client_connected_cb)
+    CTX['mem_server'] = srv
+    return srv
+
+
+class _Subprocess:
+    """stands for the module `subprocess` inside mosaik.simmanager: Popen 'starts' the simulator of the cmd starter, which connects
+    to the server start_proc has just opened.  The command line is ['mem-sim', <class key>, <addr>]; the environment and working
+    directory handed to Popen are given to the simulator object (what the process would see)."""
+
+    def __getattr__(self, name):
+        import subprocess
+        return getattr(subprocess, name)
+
+    def Popen(self, cmd, bufsize=-1, cwd=None, universal_newlines=None, env=None, creationflags=0, **kw):
+        loop = asyncio.get_running_loop()
+        srv = CTX['mem_server']
+        assert cmd[0] == 'mem-sim' and not srv.closed, cmd
+        r1, w1 = _new_connection(loop, cmd[1], proc=(dict(env) if env is not None else dict(os.environ), cwd))
+        t = loop.create_task(srv.cb(r1, w1))
+        CTX.setdefault('popen_calls', []).append({'cmd': list(cmd), 'cwd': cwd})
+        return object()
+
+
 @contextlib.contextmanager
 def patched():
-    saved = (asyncio.open_connection, conn._encoder, conn._decoder, simmanager.RemoteProxy)
+    saved = (asyncio.open_connection, conn._encoder, conn._decoder, simmanager.RemoteProxy, asyncio.start_server, simmanager.subprocess)
+    saved_env = dict(os.environ)
     asyncio.open_connection = mem_open_connection
+    asyncio.start_server = mem_start_server
+    simmanager.subprocess = _Subprocess()
     conn._encoder = _Enc()
     conn._decoder = _Dec()
     simmanager.RemoteProxy = OracleRemoteProxy
@@ -427,7 +481,10 @@ def patched():
     try:
         yield
     finally:
-        asyncio.open_connection, conn._encoder, conn._decoder, simmanager.RemoteProxy = saved
+        asyncio.open_connection, conn._encoder, conn._decoder, simmanager.RemoteProxy, asyncio.start_server, simmanager.subprocess = saved
+        if dict(os.environ) != saved_env:       # the code under test must not have changed the checker's own environment for later paths
+            os.environ.clear()
+            os.environ.update(saved_env)
 
 
 STUBS = [
@@ -437,6 +494,9 @@ STUBS = [
     "mosaik's start_connect and RemoteProxy and the simulator-side mosaik_api_v3.run_simulator are executed for real",
     "JSON text replaced by a table lookup ('#n'), objects converted structurally like a JSON round trip (tuples to lists, keys to str); the "
     "4-byte length framing is real",
-    "virtual clock: when nothing is ready the solver picks the next simulator->mosaik message, a parked reply, or lets the earliest timer fire "
+    "cmd starter: asyncio.start_server and the name subprocess in mosaik.simmanager are replaced; Popen(['mem-sim', key, addr], env=..., cwd=...) creates the "
+    "simulator end, hands it the environment and working directory it was given, and connects it to the server (start_proc itself runs for real)",
+    "virtual clock: when nothing is ready the solver picks the next simulator->mosaik message (or several consecutive ones of that direction "
+    "arriving together), a parked reply, or lets the earliest timer fire "
     "(so RemoteProxy.stop()'s 0.1 s timeout races with the simulator's reaction); mosaik->simulator messages arrive at once",
 ]
